@@ -310,4 +310,215 @@ theorem exit_simplex (w δ : Fin 3 → ℝ) (hw : ∀ i, 0 ≤ w i) (hneg : ∃ 
       rw [div_mul_eq_mul_div, div_eq_iff (neg_ne_zero.mpr hne)]; ring
     linarith
 
+/-- `exit_simplex` for three explicit weights -/
+theorem exit3 (w0 w1 w2 d0 d1 d2 : ℝ) (h0 : 0 ≤ w0) (h1 : 0 ≤ w1) (h2 : 0 ≤ w2)
+    (hneg : d0 < 0 ∨ d1 < 0 ∨ d2 < 0) :
+    ∃ s : ℝ, 0 ≤ s ∧ 0 ≤ w0 + s * d0 ∧ 0 ≤ w1 + s * d1 ∧ 0 ≤ w2 + s * d2 ∧
+      (w0 + s * d0 = 0 ∨ w1 + s * d1 = 0 ∨ w2 + s * d2 = 0) ∧
+      (d0 < 0 → s * (-d0) ≤ w0) ∧ (d1 < 0 → s * (-d1) ≤ w1) ∧ (d2 < 0 → s * (-d2) ≤ w2) := by
+  have hw : ∀ i : Fin 3, 0 ≤ (![w0, w1, w2] : Fin 3 → ℝ) i := by
+    intro i; fin_cases i <;> simp [h0, h1, h2]
+  have hn : ∃ i : Fin 3, (![d0, d1, d2] : Fin 3 → ℝ) i < 0 := by
+    rcases hneg with h | h | h
+    · exact ⟨0, by simpa using h⟩
+    · exact ⟨1, by simpa using h⟩
+    · exact ⟨2, by simpa using h⟩
+  obtain ⟨s, hs, hall, ⟨i, hi⟩, hlim⟩ := exit_simplex _ _ hw hn
+  refine ⟨s, hs, by simpa using hall 0, by simpa using hall 1, by simpa using hall 2, ?_,
+    by simpa using hlim 0, by simpa using hlim 1, by simpa using hlim 2⟩
+  fin_cases i
+  · left; simpa using hi
+  · right; left; simpa using hi
+  · right; right; simpa using hi
+
+/-- outside the interior branch of a non-degenerate triangle, the orthogonal foot has a negative weight -/
+theorem exists_neg_bary {p0 p1 p2 x : V3 ℝ} (hT : rdot (nrm p0 p1 p2) (nrm p0 p1 p2) ≠ 0)
+    (hI : ¬ TriInterior p0 p1 p2 x) :
+    (baryR p0 p1 p2 x).x / rdot (nrm p0 p1 p2) (nrm p0 p1 p2) < 0 ∨
+    (baryR p0 p1 p2 x).y / rdot (nrm p0 p1 p2) (nrm p0 p1 p2) < 0 ∨
+    (baryR p0 p1 p2 x).z / rdot (nrm p0 p1 p2) (nrm p0 p1 p2) < 0 := by
+  by_contra hc
+  simp only [not_or, not_lt] at hc
+  obtain ⟨c0, c1, c2⟩ := hc
+  have hsum := bary_div_sum (x := x) hT
+  apply hI
+  have hTabs : 0 < |rdot (nrm p0 p1 p2) (nrm p0 p1 p2)| := abs_pos.mpr hT
+  have hdiv : ∀ β : ℝ, 0 ≤ β → β ≤ 1 →
+      Scalar.divisible (β * rdot (nrm p0 p1 p2) (nrm p0 p1 p2)) (rdot (nrm p0 p1 p2) (nrm p0 p1 p2)) = true := by
+    intro β hβ0 hβ1
+    rw [divisible_iff]
+    have h10 : (1 : ℝ) * (10 : ℝ) ^ (20 : ℤ) = 10 ^ 20 := by norm_num
+    rw [h10, abs_mul, abs_mul, abs_of_nonneg hβ0, abs_of_pos (by positivity : (0 : ℝ) < 10 ^ 20)]
+    have : β * |rdot (nrm p0 p1 p2) (nrm p0 p1 p2)| ≤ 1 * |rdot (nrm p0 p1 p2) (nrm p0 p1 p2)| :=
+      mul_le_mul_of_nonneg_right hβ1 hTabs.le
+    have h2 : (1 : ℝ) * |rdot (nrm p0 p1 p2) (nrm p0 p1 p2)| <
+        10 ^ 20 * |rdot (nrm p0 p1 p2) (nrm p0 p1 p2)| :=
+      mul_lt_mul_of_pos_right (by norm_num) hTabs
+    linarith
+  have e0 := div_mul_cancel₀ (baryR p0 p1 p2 x).x hT
+  have e1 := div_mul_cancel₀ (baryR p0 p1 p2 x).y hT
+  have e2 := div_mul_cancel₀ (baryR p0 p1 p2 x).z hT
+  have d0 := hdiv _ c0 (by linarith)
+  have d1 := hdiv _ c1 (by linarith)
+  have d2 := hdiv _ c2 (by linarith)
+  rw [e0] at d0
+  rw [e1] at d1
+  rw [e2] at d2
+  unfold TriInterior
+  simp only [Bool.and_eq_true, le_iff]
+  exact ⟨⟨⟨d0, d1⟩, d2⟩, ⟨c0, c1⟩, c2⟩
+
+/-- non-degenerate triangle, foot outside: every point of the triangle is at least as far from `x` as
+    some boundary point (the exit point of the segment towards the foot) -/
+theorem edge_point_nondegenerate {p0 p1 p2 x : V3 ℝ} (hT : rdot (nrm p0 p1 p2) (nrm p0 p1 p2) ≠ 0)
+    (hI : ¬ TriInterior p0 p1 p2 x) (u v w : ℝ) (hu : 0 ≤ u) (hv : 0 ≤ v) (hw : 0 ≤ w) (hs : u + v + w = 1) :
+    ∃ z, (OnSeg p0 p1 z ∨ OnSeg p1 p2 z ∨ OnSeg p2 p0 z) ∧ sqd x z ≤ sqd x (comb3 p0 p1 p2 u v w) := by
+  have hneg := exists_neg_bary hT hI
+  have hsum := bary_div_sum (x := x) hT
+  have pyth := sqd_foot_pythagoras (x := x) hT
+  generalize (baryR p0 p1 p2 x).x / rdot (nrm p0 p1 p2) (nrm p0 p1 p2) = β0 at *
+  generalize (baryR p0 p1 p2 x).y / rdot (nrm p0 p1 p2) (nrm p0 p1 p2) = β1 at *
+  generalize (baryR p0 p1 p2 x).z / rdot (nrm p0 p1 p2) (nrm p0 p1 p2) = β2 at *
+  have hneg' : β0 - u < 0 ∨ β1 - v < 0 ∨ β2 - w < 0 := by
+    rcases hneg with h | h | h
+    · left; linarith
+    · right; left; linarith
+    · right; right; linarith
+  obtain ⟨s, hs0, c0, c1, c2, hz, l0, l1, l2⟩ := exit3 u v w (β0 - u) (β1 - v) (β2 - w) hu hv hw hneg'
+  have hs1 : s ≤ 1 := by
+    rcases hneg with h | h | h
+    · have := l0 (by linarith); nlinarith
+    · have := l1 (by linarith); nlinarith
+    · have := l2 (by linarith); nlinarith
+  have hcs : (u + s * (β0 - u)) + (v + s * (β1 - v)) + (w + s * (β2 - w)) = 1 := by
+    have : (u + s * (β0 - u)) + (v + s * (β1 - v)) + (w + s * (β2 - w)) =
+        (u + v + w) + s * ((β0 + β1 + β2) - (u + v + w)) := by ring
+    rw [this, hs, hsum]; ring
+  refine ⟨comb3 p0 p1 p2 (u + s * (β0 - u)) (v + s * (β1 - v)) (w + s * (β2 - w)),
+    onEdge_of_zero_weight p0 p1 p2 _ _ _ c0 c1 c2 hcs hz, ?_⟩
+  rw [pyth _ _ _ hcs, pyth u v w hs]
+  have hscale : sqd (comb3 p0 p1 p2 β0 β1 β2)
+      (comb3 p0 p1 p2 (u + s * (β0 - u)) (v + s * (β1 - v)) (w + s * (β2 - w))) =
+      (1 - s) ^ 2 * sqd (comb3 p0 p1 p2 β0 β1 β2) (comb3 p0 p1 p2 u v w) := by
+    unfold sqd comb3; ring
+  rw [hscale]
+  have hq := sqd_nonneg (comb3 p0 p1 p2 β0 β1 β2) (comb3 p0 p1 p2 u v w)
+  have h1s : (1 - s) ^ 2 ≤ 1 := by nlinarith
+  nlinarith
+
+/-- degenerate triangle (`N = 0`): every point of the triangle lies on one of its edges -/
+theorem edge_point_degenerate {p0 p1 p2 : V3 ℝ} (hT : rdot (nrm p0 p1 p2) (nrm p0 p1 p2) = 0)
+    (u v w : ℝ) (hu : 0 ≤ u) (hv : 0 ≤ v) (hw : 0 ≤ w) (hs : u + v + w = 1) :
+    OnSeg p0 p1 (comb3 p0 p1 p2 u v w) ∨ OnSeg p1 p2 (comb3 p0 p1 p2 u v w) ∨
+      OnSeg p2 p0 (comb3 p0 p1 p2 u v w) := by
+  unfold rdot at hT
+  have hNx : (nrm p0 p1 p2).x = 0 := mul_self_eq_zero.mp (le_antisymm
+    (by nlinarith [mul_self_nonneg (nrm p0 p1 p2).y, mul_self_nonneg (nrm p0 p1 p2).z]) (mul_self_nonneg _))
+  have hNy : (nrm p0 p1 p2).y = 0 := mul_self_eq_zero.mp (le_antisymm
+    (by nlinarith [mul_self_nonneg (nrm p0 p1 p2).x, mul_self_nonneg (nrm p0 p1 p2).z]) (mul_self_nonneg _))
+  have hNz : (nrm p0 p1 p2).z = 0 := mul_self_eq_zero.mp (le_antisymm
+    (by nlinarith [mul_self_nonneg (nrm p0 p1 p2).x, mul_self_nonneg (nrm p0 p1 p2).y]) (mul_self_nonneg _))
+  simp only [nrm] at hNx hNy hNz
+  by_cases hU : segL p0 p1 = 0
+  · -- p1 = p0 : the weight of p1 can be moved to p0
+    unfold segL at hU
+    have ex : p1.x - p0.x = 0 := mul_self_eq_zero.mp (le_antisymm
+      (by nlinarith [mul_self_nonneg (p1.y - p0.y), mul_self_nonneg (p1.z - p0.z)]) (mul_self_nonneg _))
+    have ey : p1.y - p0.y = 0 := mul_self_eq_zero.mp (le_antisymm
+      (by nlinarith [mul_self_nonneg (p1.x - p0.x), mul_self_nonneg (p1.z - p0.z)]) (mul_self_nonneg _))
+    have ez : p1.z - p0.z = 0 := mul_self_eq_zero.mp (le_antisymm
+      (by nlinarith [mul_self_nonneg (p1.x - p0.x), mul_self_nonneg (p1.y - p0.y)]) (mul_self_nonneg _))
+    have hy : comb3 p0 p1 p2 u v w = comb3 p0 p1 p2 (u + v) 0 w := by
+      apply V3.eq_of <;> simp only [comb3]
+      · linear_combination v * ex
+      · linear_combination v * ey
+      · linear_combination v * ez
+    rw [hy]
+    exact onEdge_of_zero_weight p0 p1 p2 _ _ _ (by linarith) (le_refl _) hw (by linarith) (Or.inr (Or.inl rfl))
+  · have hUpos : 0 < segL p0 p1 := lt_of_le_of_ne (segL_nonneg _ _) (Ne.symm hU)
+    -- null combination  a (p1-p0) + b (p2-p0) = 0  with  b = |p1-p0|² > 0
+    set b := segL p0 p1 with hb
+    set a := -((p1.x - p0.x) * (p2.x - p0.x) + (p1.y - p0.y) * (p2.y - p0.y) + (p1.z - p0.z) * (p2.z - p0.z)) with ha
+    have nx : a * (p1.x - p0.x) + b * (p2.x - p0.x) = 0 := by
+      rw [ha, hb]; unfold segL
+      linear_combination (p1.z - p0.z) * hNy - (p1.y - p0.y) * hNz
+    have ny : a * (p1.y - p0.y) + b * (p2.y - p0.y) = 0 := by
+      rw [ha, hb]; unfold segL
+      linear_combination (p1.x - p0.x) * hNz - (p1.z - p0.z) * hNx
+    have nz : a * (p1.z - p0.z) + b * (p2.z - p0.z) = 0 := by
+      rw [ha, hb]; unfold segL
+      linear_combination (p1.y - p0.y) * hNx - (p1.x - p0.x) * hNy
+    have hneg : -(a + b) < 0 ∨ a < 0 ∨ b < 0 := by
+      by_cases h : a < 0
+      · right; left; exact h
+      · left; linarith [not_lt.mp h]
+    obtain ⟨s, hs0, c0, c1, c2, hz, _, _, _⟩ := exit3 u v w (-(a + b)) a b hu hv hw hneg
+    have hy : comb3 p0 p1 p2 u v w = comb3 p0 p1 p2 (u + s * (-(a + b))) (v + s * a) (w + s * b) := by
+      apply V3.eq_of <;> simp only [comb3]
+      · linear_combination (-s) * nx
+      · linear_combination (-s) * ny
+      · linear_combination (-s) * nz
+    rw [hy]
+    exact onEdge_of_zero_weight p0 p1 p2 _ _ _ c0 c1 c2 (by linarith) hz
+
+/-- outside the interior branch some boundary point is at least as close to `x` as any given point of the
+    triangle -/
+theorem exists_edge_point_le {p0 p1 p2 x : V3 ℝ} (hI : ¬ TriInterior p0 p1 p2 x) (y : V3 ℝ)
+    (hy : InTri p0 p1 p2 y) :
+    ∃ z, (OnSeg p0 p1 z ∨ OnSeg p1 p2 z ∨ OnSeg p2 p0 z) ∧ edist x z ≤ edist x y := by
+  obtain ⟨u, v, w, hu, hv, hw, hs, rfl⟩ := hy
+  by_cases hT : rdot (nrm p0 p1 p2) (nrm p0 p1 p2) = 0
+  · exact ⟨_, edge_point_degenerate hT u v w hu hv hw hs, le_refl _⟩
+  · obtain ⟨z, hz, hle⟩ := edge_point_nondegenerate hT hI u v w hu hv hw hs
+    exact ⟨z, hz, edist_le_of_sqd_le hle⟩
+
+/-- relative slack of `ref_search_distance3`: the worst of its three edge calls -/
+noncomputable def triSlack (p0 p1 p2 x : V3 ℝ) : ℝ :=
+  min (min (segSlack p0 p1 x) (segSlack p1 p2 x)) (segSlack p2 p0 x)
+
+theorem triSlack_le_one (p0 p1 p2 x : V3 ℝ) : triSlack p0 p1 p2 x ≤ 1 :=
+  le_trans (min_le_right _ _) (segSlack_le_one _ _ _)
+
+theorem triSlack_ge (p0 p1 p2 x : V3 ℝ) : 1 - eps20 ≤ triSlack p0 p1 p2 x :=
+  le_min (le_min (segSlack_ge _ _ _) (segSlack_ge _ _ _)) (segSlack_ge _ _ _)
+
+theorem triSlack_pos (p0 p1 p2 x : V3 ℝ) : 0 < triSlack p0 p1 p2 x :=
+  lt_of_lt_of_le (by linarith [eps20_lt_one]) (triSlack_ge p0 p1 p2 x)
+
+theorem triSlack_eq_one {p0 p1 p2 x : V3 ℝ} (h01 : SegGuard p0 p1 x ∨ p0 = p1)
+    (h12 : SegGuard p1 p2 x ∨ p1 = p2) (h20 : SegGuard p2 p0 x ∨ p2 = p0) : triSlack p0 p1 p2 x = 1 := by
+  unfold triSlack
+  rw [segSlack_eq_one h01, segSlack_eq_one h12, segSlack_eq_one h20]
+  simp
+
+/-- full minimality of `ref_search_distance3` over the closed triangle, up to the slack of the
+    `ref_math_divisible` guards in its edge calls -/
+theorem dist2triWith_min (foot : V3 ℝ → V3 ℝ → V3 ℝ → V3 ℝ → V3 ℝ) (hf : FootAlongNormal foot)
+    (p0 p1 p2 x y : V3 ℝ) (hy : InTri p0 p1 p2 y) :
+    triSlack p0 p1 p2 x * dist2triWith foot p0 p1 p2 x ≤ edist x y := by
+  have hv := dist2triWith_nonneg foot hf p0 p1 p2 x
+  by_cases hI : TriInterior p0 p1 p2 x
+  · obtain ⟨u, v, w, _, _, _, hs, rfl⟩ := hy
+    have h1 := dist2triWith_interior_le foot hf hI u v w hs
+    have h2 := triSlack_le_one p0 p1 p2 x
+    nlinarith [triSlack_pos p0 p1 p2 x]
+  · obtain ⟨z, hz, hle⟩ := exists_edge_point_le hI y hy
+    refine le_trans ?_ hle
+    rw [(dist2triWith_cases foot hf p0 p1 p2 x).2 hI, tri3Edges_eq]
+    have n0 := dist2seg_nonneg p0 p1 x
+    have n1 := dist2seg_nonneg p1 p2 x
+    have n2 := dist2seg_nonneg p2 p0 x
+    have hm : 0 ≤ min (min (dist2seg p0 p1 x) (dist2seg p1 p2 x)) (dist2seg p2 p0 x) :=
+      le_min (le_min n0 n1) n2
+    have tp := triSlack_pos p0 p1 p2 x
+    rcases hz with hz | hz | hz
+    · refine le_trans ?_ (segSlack_mul_le p0 p1 x z hz)
+      exact mul_le_mul (le_trans (min_le_left _ _) (min_le_left _ _))
+        (le_trans (min_le_left _ _) (min_le_left _ _)) hm (segSlack_pos _ _ _).le
+    · refine le_trans ?_ (segSlack_mul_le p1 p2 x z hz)
+      exact mul_le_mul (le_trans (min_le_left _ _) (min_le_right _ _))
+        (le_trans (min_le_left _ _) (min_le_right _ _)) hm (segSlack_pos _ _ _).le
+    · refine le_trans ?_ (segSlack_mul_le p2 p0 x z hz)
+      exact mul_le_mul (min_le_right _ _) (min_le_right _ _) hm (segSlack_pos _ _ _).le
+
 end Refine.Lemmas.Search
